@@ -1254,7 +1254,7 @@ func propC06(r *Run, w *World) {
 	}
 
 	// R6 mask
-	r.Rule("C06.R6", "mask: bit n%32 of word n/32 is or-ed into Mask for each requested syscall; the all-syscalls pattern is 0xFFFFFFFF in every word and 0x0000FFFF in the last", 4)
+	r.Rule("C06.R6", "mask: bit n%32 of word n/32 is or-ed into Mask for each requested syscall; the all-syscalls pattern is 0xFFFFFFFF in every word and 0x0000FFFF in the last; every success path of addSyscall either appends one syscall and clears allSyscalls or sets allSyscalls without appending", 4)
 	{
 		fn := x.toARD
 		var maskStores []*ssa.Store
@@ -1326,6 +1326,56 @@ func propC06(r *Run, w *World) {
 			r.Check(guardEndsWith(orSt.Block(), ".allSyscalls") == false && HoldsAtSuffix(orSt.Block(), "!", ".allSyscalls"), "syscall bits only without allSyscalls", orSt.Pos(), "", "syscall bits are or-ed in although all syscalls were requested")
 		}
 		r.Check(okBit, "syscall bit", fn.Pos(), "Mask[n/32] |= 1 << (n%32)", "the syscall bit is not bit n%32 of word n/32 or-ed into the mask: "+detail)
+	}
+
+	// R6 (input side): the all-syscalls flag and the syscall list stay in step in addSyscall
+	{
+		fn := x.addSyscall
+		ps, complete := Paths(fn, PathOpts{Cap: 4000})
+		if !complete {
+			r.Undecided("addSyscall paths", fn.Pos(), "path cap exceeded")
+		}
+		nApp, nAll := 0, 0
+		for i, p := range ps {
+			ret := p.Ret()
+			if ret == nil || len(ret.Results) != 1 || !isNilConst(ret.Results[0]) {
+				continue
+			}
+			apps, setTrue, setFalse := 0, 0, 0
+			for _, e := range p.Events {
+				st, ok := e.Instr.(*ssa.Store)
+				if !ok || e.Kind != EvStore {
+					continue
+				}
+				t := AddrTerm(st.Addr)
+				switch {
+				case t == "p0.syscalls":
+					apps++
+				case t == "p0.allSyscalls":
+					switch Term(st.Val) {
+					case "true":
+						setTrue++
+					case "false":
+						setFalse++
+					default:
+						setTrue++
+						setFalse++
+					}
+				}
+			}
+			key := fmt.Sprintf("addSyscall path#%d", i)
+			switch {
+			case apps > 0:
+				nApp++
+				r.Check(apps == 1 && setFalse >= 1 && setTrue == 0, key+" adds one syscall and clears allSyscalls", ret.Pos(), "", fmt.Sprintf("a success path of addSyscall appends %d syscall(s) with allSyscalls set false %d time(s) and true %d time(s): a rule that names syscalls would still be built with the all-syscalls mask (or the reverse): %s", apps, setFalse, setTrue, compactPath(p)))
+			case setTrue > 0:
+				nAll++
+				r.Check(setFalse == 0, key+" selects all syscalls", ret.Pos(), "", "the -S all path also clears allSyscalls: "+compactPath(p))
+			default:
+				r.Fail(key+" does nothing", ret.Pos(), "a success path of addSyscall neither adds a syscall nor selects all: the -S value is dropped silently: "+compactPath(p))
+			}
+		}
+		r.Check(nApp >= 1 && nAll >= 1, "addSyscall has a list path and an all path", fn.Pos(), "", fmt.Sprintf("%d list paths, %d all paths", nApp, nAll))
 	}
 
 	// R7 value widths
